@@ -388,6 +388,14 @@ func genPipe(rt *rapid.T, tier string, op pipeGenOpts) *PipeCase {
 	r := rapidRnd{rt}
 	pc := &PipeCase{}
 	pc.Algo = rapid.SampledFrom(op.algos).Draw(rt, "algo")
+	if pc.Algo == "tbe" {
+		pc.AvgTaxa = rapid.IntRange(0, 2).Draw(rt, "avgtaxa") == 0
+		pc.PerBranch = rapid.IntRange(0, 2).Draw(rt, "perbranch") == 0
+		pc.RawTree = rapid.IntRange(0, 2).Draw(rt, "rawtree") == 0
+		if (pc.AvgTaxa || pc.PerBranch) && op.maxTax >= 12 && op.minTax < 10 {
+			op.minTax = 10 // the moved-taxa statistics only look at branches of depth >= 5
+		}
+	}
 	ntax := drawTaxa(rt, op.minTax, op.maxTax)
 	tx := drawTaxaNames(rt, ntax)
 	maxdeg := rapid.IntRange(2, 4).Draw(rt, "maxdeg")
@@ -407,6 +415,14 @@ func genPipe(rt *rapid.T, tier string, op pipeGenOpts) *PipeCase {
 			m = related(base, r, 0, 2) // contraction
 		case 2:
 			m = represent(RandomTree(tx, r, maxdeg, true), r) // unrelated
+		case 4:
+			// the base tree with one or two rogue taxa
+			mm := base.Clone(nil)
+			for k := 1 + r.Intn(2); k > 0; k-- {
+				RogueMove(mm, r)
+			}
+			Unroot(mm)
+			m = represent(mm, r)
 		case 3:
 			if op.twoBases {
 				if base2 == nil {
@@ -421,7 +437,7 @@ func genPipe(rt *rapid.T, tier string, op pipeGenOpts) *PipeCase {
 		}
 		if op.rootedRecs && rapid.IntRange(0, 3).Draw(rt, "rootrec") == 0 {
 			all := m.all()
-			m = RootOnBranch(m, all[1+r.Intn(len(all)-1)])
+			m = rootAtRandom(m, all, r)
 		}
 		models = append(models, m)
 		pc.Recs = append(pc.Recs, Rec{Text: m.Newick()})
@@ -441,17 +457,12 @@ func genPipe(rt *rapid.T, tier string, op pipeGenOpts) *PipeCase {
 	}
 	if op.rootedRef && rapid.IntRange(0, 2).Draw(rt, "rootref") == 0 {
 		all := refm.all()
-		refm = RootOnBranch(refm, all[1+r.Intn(len(all)-1)])
+		refm = rootAtRandom(refm, all, r)
 	}
 	pc.Ref = refm.Newick()
 	pc.Cpus = []int{1, 2, 3, 4, 8, 16}[rapid.IntRange(0, 5).Draw(rt, "cpus")]
 	pc.Tips = rapid.Bool().Draw(rt, "tips")
 	pc.Identical = rapid.IntRange(0, 4).Draw(rt, "identical") == 0
-	if pc.Algo == "tbe" {
-		pc.AvgTaxa = rapid.IntRange(0, 3).Draw(rt, "avgtaxa") == 0
-		pc.PerBranch = rapid.IntRange(0, 3).Draw(rt, "perbranch") == 0
-		pc.RawTree = rapid.IntRange(0, 2).Draw(rt, "rawtree") == 0
-	}
 	pc.Feed = rapid.SampledFrom([]string{"reader", "chan"}).Draw(rt, "feed")
 	pc.BufSz = []int{4096, 16, 64, 65536}[rapid.IntRange(0, 3).Draw(rt, "bufsz")]
 	pc.Chunk = []int{4096, 1, 7, 64}[rapid.IntRange(0, 3).Draw(rt, "chunk")]
